@@ -441,7 +441,11 @@ func c05Model(w *world.World, ri *reqInfo, hosts []*world.Node, down map[*world.
 					sameKindUN++
 				}
 				if cls == world.ClsConnLoss {
-					retriesMax++
+					// Moving on after a lost connection is no retry in the sense of the policy: the
+					// "once" of unavailable, read time-out and batch-log write time-out counts decisions
+					// of the policy, and the policy is not asked about a lost connection. (Until wave
+					// 16 the model let it count either way; the first UNAVAILABLE after a lost
+					// connection could then be delivered although the next host would have answered.)
 				} else {
 					retriesMin++
 					retriesMax++
